@@ -25,7 +25,12 @@ pub enum Op {
     ClearFuns,
     Clear,
     SetFn(String),
+    /// rebinding: a function that returns the constant 99 whatever its argument
+    SetFnConst(String),
     Toggle(bool),
+    /// `fresh.clone_from(&ctx)` into a context that already holds other variables, functions and the other switch
+    /// setting; the history continues on the target
+    CloneFrom,
     /// clone; the history continues on the clone, the original is kept and must stay as it was
     CloneCtx,
 }
@@ -38,7 +43,9 @@ impl Op {
             Op::ClearVars => "clear_variables()".into(),
             Op::ClearFuns => "clear_functions()".into(),
             Op::Clear => "clear()".into(),
-            Op::SetFn(f) => format!("set_function({})", f),
+            Op::SetFn(f) => format!("set_function({}, identity)", f),
+            Op::SetFnConst(f) => format!("set_function({}, constant 99)", f),
+            Op::CloneFrom => "other.clone_from(&ctx) and continue on other".into(),
             Op::Toggle(b) => format!("set_builtin_functions_disabled({})", b),
             Op::CloneCtx => "clone() and continue on the clone".into(),
         }
@@ -50,7 +57,8 @@ impl Op {
             Op::ClearVars => "clear_variables",
             Op::ClearFuns => "clear_functions",
             Op::Clear => "clear",
-            Op::SetFn(_) => "set_function",
+            Op::SetFn(_) | Op::SetFnConst(_) => "set_function",
+            Op::CloneFrom => "clone_from",
             Op::Toggle(_) => "toggle",
             Op::CloneCtx => "clone",
         }
@@ -71,6 +79,7 @@ pub fn domain_values() -> Vec<RV> {
         RV::Int(2),
         RV::Float(1.5),
         RV::Float(-0.0),
+        RV::Float(0.0),
         RV::Str("s".into()),
         RV::Str("".into()),
         RV::Bool(true),
@@ -116,6 +125,9 @@ pub fn all_ops(names: &[&str]) -> Vec<Op> {
         Op::SetFn("g".into()),
         Op::SetFn("typeof".into()),
         Op::SetFn("len".into()),
+        Op::SetFnConst("f".into()),
+        Op::SetFnConst("typeof".into()),
+        Op::CloneFrom,
         Op::Toggle(true),
         Op::Toggle(false),
         Op::CloneCtx,
@@ -223,6 +235,32 @@ pub fn apply(op: &Op, live: &mut Live, report: &mut dyn FnMut(&str, String, Stri
             live.model.funs.insert(f.clone(), FnModel::Identity);
             None
         },
+        Op::SetFnConst(f) => {
+            let r = live.ctx.set_function(f.clone(), Function::new(|_: &Value| Ok(Value::Int(99))));
+            if r.is_err() {
+                report("set_function/result", "Ok(())".into(), format!("{:?}", r));
+            }
+            live.model.funs.insert(f.clone(), FnModel::Const(Value::Int(99)));
+            None
+        },
+        Op::CloneFrom => {
+            // the target starts out as different as possible from the source
+            let mut target = Ctx::new();
+            let _ = target.set_value("a".into(), Value::String("stale".into()));
+            let _ = target.set_value("stale_only".into(), Value::Int(1));
+            let _ = target.set_function("g".into(), Function::new(|_: &Value| Ok(Value::Int(-1))));
+            let _ = target.set_function("stale_fn".into(), Function::new(|v: &Value| Ok(v.clone())));
+            let _ = target.set_builtin_functions_disabled(!live.model.builtins_off);
+            if let Err(p) = guard(|| target.clone_from(&live.ctx)) {
+                report("panic", "clone_from returns".into(), api::panic_text(&p));
+                return None;
+            }
+            let original = std::mem::replace(&mut live.ctx, target);
+            Some(Live {
+                ctx: original,
+                model: live.model.clone(),
+            })
+        },
         Op::Toggle(b) => {
             let r = live.ctx.set_builtin_functions_disabled(*b);
             if r.is_err() {
@@ -253,7 +291,7 @@ pub fn check_state(live: &Live, names: &[&str], report: &mut dyn FnMut(&str, Str
     let c = &live.ctx;
     let m = &live.model;
     // lookup of every name (and two that were never bound)
-    for k in names.iter().copied().chain(["zz", "a "]) {
+    for k in names.iter().copied().chain(["zz", "a ", "stale_only"]) {
         let g = c.get_value(k).map(RV::from_value);
         let e = m.vars.get(k);
         let same = match (&g, e) {
@@ -284,16 +322,20 @@ pub fn check_state(live: &Live, names: &[&str], report: &mut dyn FnMut(&str, Str
         report("state/iter_variable_names", format!("{:?}", names_exp), format!("{:?}", names_got));
     }
     // function lookup
-    for f in ["f", "g", "h", "typeof", "len"] {
+    for f in ["f", "g", "h", "typeof", "len", "stale_fn"] {
         let r = c.call_function(f, &Value::Int(7));
-        let has = m.funs.contains_key(f);
-        let ok = match &r {
-            Ok(Value::Int(7)) => has,
-            Err(e) => !has && classify_err(e) == ErrClass::UnknownFn(f.to_string()),
+        let want = match m.funs.get(f) {
+            Some(FnModel::Identity) => Some(7),
+            Some(FnModel::Const(_)) => Some(99),
+            _ => None,
+        };
+        let ok = match (&r, want) {
+            (Ok(Value::Int(k)), Some(w)) => *k == w,
+            (Err(e), None) => classify_err(e) == ErrClass::UnknownFn(f.to_string()),
             _ => false,
         };
         if !ok {
-            report("state/call_function", format!("{} {}", f, if has { "defined (identity)" } else { "undefined" }), format!("{:?}", r));
+            report("state/call_function", format!("{} {}", f, match want { Some(7) => "defined (identity)", Some(_) => "defined (constant 99)", None => "undefined" }), format!("{:?}", r));
         }
     }
     // builtin switch, directly and by its effect
@@ -304,7 +346,8 @@ pub fn check_state(live: &Live, names: &[&str], report: &mut dyn FnMut(&str, Str
     let t = api::eval_str("typeof(1)", c);
     let user = m.funs.contains_key("typeof");
     let ok = match &t {
-        Got::Val(RV::Int(1)) => user,
+        Got::Val(RV::Int(1)) => matches!(m.funs.get("typeof"), Some(FnModel::Identity)),
+        Got::Val(RV::Int(99)) => matches!(m.funs.get("typeof"), Some(FnModel::Const(_))),
         Got::Val(RV::Str(s)) => s == "int" && !m.builtins_off && !user,
         Got::Err(ErrClass::UnknownFn(n), _) => n == "typeof" && m.builtins_off && !user,
         _ => false,
@@ -468,8 +511,15 @@ impl Phase for Histories {
                 13 => Op::ClearVars,
                 14 => Op::ClearFuns,
                 15 => Op::Clear,
-                16 => Op::SetFn(r.pick(&["f", "g"]).to_string()),
+                16 => {
+                    if r.chance(1, 2) {
+                        Op::SetFn(r.pick(&["f", "g"]).to_string())
+                    } else {
+                        Op::SetFnConst(r.pick(&["f", "g"]).to_string())
+                    }
+                },
                 17 => Op::Toggle(r.chance(1, 2)),
+                18 => Op::CloneFrom,
                 _ => Op::CloneCtx,
             };
             hist.push(format!("[{}] {}", which, op.show()));
